@@ -1005,6 +1005,73 @@ func runReadBufferClear(sc sweepScenario) sweepResult {
 	return res
 }
 
+// runEvictRewrite (C04): an eviction run (the maximum was lowered) is parked inside the deletion handler of its first victim
+// while another goroutine rewrites every other key: the run goes on to evict nodes that are no longer current for their keys.
+// After quiescence and maintenance the entries present are within the (lowered) maximum.
+func runEvictRewrite(sc sweepScenario) sweepResult {
+	res := sweepResult{T: "sweep", Sc: sc, TickNs: 1 << 30}
+	clk := &stallClock{never: make(chan time.Time), stalled: make(chan struct{}), resume: make(chan struct{})}
+	clk.now.Store(int64(5) << 30)
+	parked, resume := make(chan struct{}), make(chan struct{})
+	var once sync.Once
+	var armed atomic.Bool
+	o := &Options[int, int]{
+		Clock:       clk,
+		MaximumSize: 20,
+		Executor:    func(fn func()) { fn() },
+		OnDeletion: func(e DeletionEvent[int, int]) {
+			if armed.Load() && e.Cause == CauseOverflow {
+				once.Do(func() {
+					close(parked)
+					<-resume
+				})
+			}
+		},
+	}
+	if sc.Sized == 0 {
+		o.ExpiryCalculator = ExpiryWriting[int, int](time.Hour)
+	}
+	c := Must(o)
+	defer c.StopAllGoroutines()
+	for k := 0; k < 20; k++ {
+		c.Set(k, k)
+	}
+	c.CleanUp()
+	armed.Store(true)
+	done := make(chan struct{})
+	go func() {
+		defer close(done)
+		c.SetMaximum(uint64(sc.Max)) // the eviction run
+	}()
+	select {
+	case <-parked:
+	case <-done:
+	case <-time.After(3 * time.Second):
+		res.Hang = 1
+		return res
+	}
+	for k := 0; k < 20; k++ {
+		c.Set(k, 1000+k) // rewritten while the run is parked: its victims are no longer the current nodes
+	}
+	close(resume)
+	select {
+	case <-done:
+	case <-time.After(3 * time.Second):
+		res.Hang = 1
+		return res
+	}
+	c.CleanUp()
+	c.CleanUp()
+	for range c.All() {
+		res.Live++
+	}
+	for range c.Coldest() {
+		res.Cold++
+	}
+	res.EstMid = c.EstimatedSize()
+	return res
+}
+
 type sweepResult struct {
 	T       string        `json:"t"`
 	Sc      sweepScenario `json:"sc"`
@@ -1138,6 +1205,10 @@ func TestVerifSweep(t *testing.T) {
 	defer w.Flush()
 	enc := json.NewEncoder(w)
 	for _, sc := range scs {
+		if sc.Op == "ev.rewrite" {
+			_ = enc.Encode(runEvictRewrite(sc))
+			continue
+		}
 		if sc.Op == "rb.clear" {
 			_ = enc.Encode(runReadBufferClear(sc))
 			continue
